@@ -15,7 +15,8 @@ EVIDENCE = dict(
          "the file is loaded afresh, the attribute is set through the public API to a new in-domain value, the object is "
          "saved and loaded again. TLC checks loaded = Norm(SetPath(before, leaf, value)): the changed value shows, every "
          "other leaf is as it was. non-trivial = every edit (the new value always differs from the old one)."
-         " Trace_RVFormat op alias: on a loaded MetaModule whose first user-defined controller has no label, an edit through u_<label> must save the same state as the edit through user_defined_<n> (and a state different from the base).",
+         " Trace_RVFormat op alias: on a loaded MetaModule whose first user-defined controller has no label, an edit through u_<label> must save the same state as the edit through user_defined_<n> (and a state different from the base)."
+         " Every third edit is made on a copy.deepcopy of the loaded object.",
     explanation="inputs: files x catalogue leaves x new values")
 
 
